@@ -405,4 +405,15 @@ def r6_format_wiring(chk):
                '%s' % [norm(c)[:60] for c in cs])
 
 
-RULES = [r1_exit_codes, r2_report, r3_options, r4_mibcopy, r5_statuses_backed_by_writes, r6_format_wiring]
+def r7_argument_agreement(chk):
+    rels = sorted(r for r in chk.model.modules if r.startswith(('scripts/',)))
+    common.argument_agreement(chk, 'C20.R7', rels, floor=5)
+
+
+
+def r8_failed_leaves_no_file(chk):
+    from rules.C13 import r9_failure_after_rename_leaves_no_file
+    r9_failure_after_rename_leaves_no_file(chk, rule='C20.R8')
+
+
+RULES = [r1_exit_codes, r2_report, r3_options, r4_mibcopy, r5_statuses_backed_by_writes, r6_format_wiring, r7_argument_agreement, r8_failed_leaves_no_file]
